@@ -865,6 +865,22 @@ static void cfg_init_defaults(cfg_t *cfg)
 	}
 }
 
+/* Remove a value slot whose section could not be created */
+static void cfg_dropval(cfg_opt_t *opt, cfg_value_t *val)
+{
+	unsigned int i;
+
+	for (i = 0; i < opt->nvalues; i++) {
+		if (opt->values[i] != val)
+			continue;
+
+		memmove(&opt->values[i], &opt->values[i + 1], sizeof(opt->values[i]) * (opt->nvalues - i - 1));
+		opt->nvalues--;
+		free(val);
+		break;
+	}
+}
+
 DLLIMPORT cfg_value_t *cfg_setopt(cfg_t *cfg, cfg_opt_t *opt, const char *value)
 {
 	cfg_value_t *val = NULL;
@@ -1031,12 +1047,15 @@ DLLIMPORT cfg_value_t *cfg_setopt(cfg_t *cfg, cfg_opt_t *opt, const char *value)
 				cfg_free(val->section);
 			}
 			val->section = calloc(1, sizeof(cfg_t));
-			if (!val->section)
+			if (!val->section) {
+				cfg_dropval(opt, val);
 				return NULL;
+			}
 
 			val->section->name = strdup(opt->name);
 			if (!val->section->name) {
 				free(val->section);
+				cfg_dropval(opt, val);
 				return NULL;
 			}
 
@@ -1048,6 +1067,7 @@ DLLIMPORT cfg_value_t *cfg_setopt(cfg_t *cfg, cfg_opt_t *opt, const char *value)
 			if (cfg->filename && !val->section->filename) {
 				free(val->section->name);
 				free(val->section);
+				cfg_dropval(opt, val);
 				return NULL;
 			}
 
@@ -1058,6 +1078,7 @@ DLLIMPORT cfg_value_t *cfg_setopt(cfg_t *cfg, cfg_opt_t *opt, const char *value)
 				free(val->section->filename);
 				free(val->section->name);
 				free(val->section);
+				cfg_dropval(opt, val);
 				return NULL;
 			}
 
@@ -1069,6 +1090,7 @@ DLLIMPORT cfg_value_t *cfg_setopt(cfg_t *cfg, cfg_opt_t *opt, const char *value)
 					free(val->section->filename);
 				free(val->section->name);
 				free(val->section);
+				cfg_dropval(opt, val);
 				return NULL;
 			}
 		}
